@@ -313,4 +313,11 @@ example : stochSpec (2 : ℚ) (fun i => if i = 0 then 3 else 5) [0, 1, 1] = 120 
 example : detSpec (2 : ℚ) (fun i => if i = 0 then 3 else 5) [0, 1, 1] * volScale 2 3 = 75 / 2 := by
   norm_num [detSpec, volScale]
 
+/-- non-vacuity of `massAction_stoch_zero_of_short` / `massAction_stoch_nonneg`: `2A → …` with a single copy of `A`. -/
+example : (createMassAction (α := ℚ) 0 [0, 0]).stoch (fun _ => 1) (fun _ => 2) 0 = 0
+    ∧ 0 ≤ (createMassAction (α := ℚ) 0 [0, 0, 1]).stoch (fun _ => 5) (fun _ => 2) 0 :=
+  ⟨massAction_stoch_zero_of_short 0 [0, 0] (fun _ => 1) (fun _ => 2) 0 (by intro s; norm_num) 0 (by simp) 1 (by norm_num)
+      (by decide),
+   massAction_stoch_nonneg 0 [0, 0, 1] (fun _ => 5) (fun _ => 2) 0 (by intro s; norm_num) (by norm_num)⟩
+
 end Bioscrape.C01
